@@ -26,7 +26,7 @@ BUDGET = {'quick': 240, 'thorough': 3000}
 
 
 def shards(tier):
-    return e1.std_shards(tier)
+    return e1.std_shards(tier, with_p=True, with_big=True)
 
 
 def check_case(case, ctr):
@@ -42,9 +42,14 @@ def check_case(case, ctr):
                                   repro=case.py_ctx() + f'l = list(c.lattice)\nx, y = l[{i}], l[{j}]\n'
                                   f'print(x, y)  # predicate {clause} expected {exp}\n'))
 
+    big = k > 100
     for i in range(k):
         x, a = members[i], ext[i]
-        for j in range(k):
+        # every partner up to 100 concepts; above: bounds, itself, mirror, neighbours in the
+        # iteration order and two strides (the predicates are per-pair bit tests)
+        js = range(k) if not big else sorted({0, k - 1, i, k - 1 - i, (i + 1) % k, (i - 1) % k,
+                                              (i * 7 + 3) % k, (i + k // 2) % k})
+        for j in js:
             y, b = members[j], ext[j]
             sub, sup = a <= b, a >= b
             if sub != (inte[j] <= inte[i]):
